@@ -145,6 +145,11 @@ def generate(ctx):
         for k in ("visit", "anchor"):
             strings.append(f"{base};{k}=swh:1:{t}:" + "1" * 40)
             strings.append(f"{base};origin=o;{k}=swh:1:{t}:" + "1" * 40 + ";lines=1")
+    # characters outside ASCII written literally (not percent-encoded) in every free-text position
+    for lit in ("/caf\u00e9", "/\u65e5\u672c\u8a9e/readme", "\u00e9", "\U0001d11e", "a\u00ffb", "\u0080", "%C3%A9\u00e9"):
+        for t in ("cnt", "dir", "rev"):
+            b_ = f"swh:1:{t}:" + "2" * 40
+            strings += [f"{b_};path={lit}", f"{b_};origin={lit}", f"{b_};origin=http://x/{lit};path={lit};lines=1", f"{b_};visit={lit}", f"{b_};lines={lit}", f"{b_}{lit}"]
     strings += ["", "swh", "swh:1:cnt:", "swh:2:cnt:" + "0" * 40, "SWH:1:cnt:" + "0" * 40, "swh:1:cnt:" + "0" * 40 + "\n", " swh:1:cnt:" + "0" * 40,
                 "swh:1:cnt:" + "0" * 40 + ";origin=a%20b", "swh:1:cnt:" + "0" * 40 + ";origin=a%E2%80%A8b", "swh:1:cnt:" + "0" * 40 + ";lines=+5",
                 "swh:1:cnt:" + "0" * 40 + ";lines=" + "1" * 4301, "swh:1:cnt:" + "0" * 40 + ";lines=" + "0" * 4301]
@@ -191,6 +196,7 @@ def check_cases(ctx, cases):
                 ctx.fail(case, "the three classes disagree on a qualifier-free string", "classes-disagree")
             elif len(oks) == 3 and len({(v.object_type.value, v.object_id) for _, v in oks.values()}) != 1:
                 ctx.fail(case, "the three classes parse a qualifier-free string to different type/id", "classes-disagree")
+    other_locale(ctx, cases, impls)
     res = ctx.model(reqs)
     for ci, case in enumerate(cases):
         for k, cls in enumerate(("core", "extended", "qualified")):
@@ -217,6 +223,55 @@ def check_cases(ctx, cases):
                     ctx.disagree(dict(case, cls=cls), "model accepts, implementation rejects", model="ok", impl=val)
                 elif m["err"] != val:
                     ctx.disagree(dict(case, cls=cls), "exception class: model vs implementation", model=m["err"], impl=val)
+
+
+def other_locale(ctx, cases, impls):
+    """what a string parses to does not depend on the locale / filesystem encoding of the process: a sample of
+    the strings (those with characters outside ASCII first) is parsed again by a child interpreter under
+    LC_ALL=C with UTF-8 mode and locale coercion off (filesystem encoding: ascii)"""
+    import json
+    import os
+    import shutil
+    import subprocess
+    import sys
+
+    from common import scratch_dir
+
+    if len(cases) <= 3 and not any(c.get("locale") for c in cases):
+        return
+    # (accepted strings with characters outside ASCII first, then other strings with such characters, then the rest)
+    idx = sorted(range(len(cases)), key=lambda i: (not any(ord(ch) > 127 for ch in uncps(cases[i]["s"])),
+                                                   not any(impls[i][c][0] == "ok" for c in impls[i]), i))[: 400 if ctx.tier == "quick" else 3000]
+    d_ = scratch_dir("c09l")
+    try:
+        with open(os.path.join(d_, "strings.jsonl"), "w", encoding="ascii") as fh:
+            for i in idx:
+                fh.write(json.dumps({"s": cases[i]["s"]}) + "\n")
+        env = dict(os.environ, LC_ALL="C", LANG="C", PYTHONUTF8="0", PYTHONCOERCECLOCALE="0")
+        p = subprocess.run([sys.executable, os.path.join(os.path.dirname(os.path.abspath(__file__)), "c09_child.py"), os.path.join(d_, "strings.jsonl")],
+                           stdout=subprocess.PIPE, stderr=subprocess.PIPE, timeout=600, env=env)
+        lines = p.stdout.decode("ascii", "replace").splitlines()
+        if p.returncode != 0 or len(lines) != len(idx) + 1:
+            ctx.notes.append("other-locale child failed: " + p.stderr.decode("utf-8", "replace")[-300:])
+            return
+        ctx.notes.append("strings parsed again in a child interpreter with filesystem encoding %s: %d" % (json.loads(lines[-1]).get("fsencoding"), len(idx)))
+        for i, ln in zip(idx, lines):
+            row = json.loads(ln)
+            for cls in ("core", "extended", "qualified"):
+                st, val = impls[i][cls]
+                if st == "ok":
+                    try:
+                        here = ["ok", sc.value_json(cls, val), cps(str(val))]
+                    except BaseException as e:  # noqa: B902
+                        here = ["ok", "unprintable:" + type(e).__name__, None]
+                else:
+                    here = ["err", val, None]
+                ctx.count("other-locale")
+                if json.loads(json.dumps(here)) != row[cls]:
+                    ctx.fail(dict(cases[i], cls=cls, locale="C"), "under LC_ALL=C (filesystem encoding ascii) the string parses to something else than under a UTF-8 locale", "locale-dependent", {"here": here[:2], "there": row[cls][:2]})
+                    return
+    finally:
+        shutil.rmtree(d_, ignore_errors=True)
 
 
 def neighbours(ctx, case):
